@@ -191,6 +191,55 @@ def run_history(ctx, rng, nops, script=None):
     return hist, problems, (iter_before_edit and iter_after_edit)
 
 
+def unit_history(ctx, rng, nq):
+    """a unit-carrying WCS whose bounding box is given as Quantities: every query is compared with a freshly built twin and the stored
+    box (types included: repr) must be what it was before the query"""
+    import astropy.units as u
+    from astropy.modeling import models
+    from gwcs import wcs, coordinate_frames as cf
+    a, b = rng.uniform(5, 15), rng.uniform(1, 4)
+    lim = ((1.0, 5.0 + rng.randint(0, 3)), (2.0, 6.0 + rng.randint(0, 3)))
+
+    def make():
+        tr = models.Shift(a * u.pix) & models.Shift(b * u.pix)
+        det = cf.Frame2D(name="detector", unit=(u.pix, u.pix))
+        out = cf.Frame2D(name="out", unit=(u.pix, u.pix))
+        w = wcs.WCS([(det, tr), (out, None)])
+        w.bounding_box = tuple((lo * u.pix, hi * u.pix) for lo, hi in lim)
+        return w
+    w = make()
+    hist, problems = [], []
+    Q = {
+        "call(inside)": lambda o: [float(v.value) for v in o(2 * u.pix, 3 * u.pix)],
+        "call(outside)": lambda o: [float(v.value) if hasattr(v, "value") else float(v) for v in o(50 * u.pix, 3 * u.pix)],
+        "pixel_bounds": lambda o: str(o.pixel_bounds),
+        "bounding_box": lambda o: repr(o.bounding_box),
+        "shapes": lambda o: (o.pixel_shape, o.array_shape, o.pixel_n_dim, o.world_n_dim),
+        "values": lambda o: [float(v) for v in o.pixel_to_world_values(2.0, 3.0)],
+        "str": lambda o: str(o),
+    }
+    for _ in range(nq):
+        q = rng.choice(list(Q))
+        before = repr(w.bounding_box)
+        out = []
+        for o in (w, make()):
+            try:
+                out.append(("val", Q[q](o)))
+            except Exception as e:  # noqa
+                out.append(("err", type(e).__name__))
+        hist.append(q)
+        same = out[0][0] == out[1][0] and (out[0][1] == out[1][1] or (isinstance(out[0][1], list) and np.allclose(out[0][1], out[1][1], equal_nan=True)))
+        if not same:
+            problems.append((f"unit-carrying WCS with a Quantity bounding box: answer of `{q}` {str(out[0])[:120]} differs from a fresh twin {str(out[1])[:120]}",
+                             ["bounding_box = Quantity limits"] + list(hist)))
+        if repr(w.bounding_box) != before:
+            problems.append((f"unit-carrying WCS with a Quantity bounding box: query `{q}` changed the stored bounding box from {before[-160:]} to "
+                             f"{repr(w.bounding_box)[-160:]}", ["bounding_box = Quantity limits"] + list(hist)))
+        if problems:
+            break
+    return hist, problems
+
+
 def run(ctx):
     from py2coq import gen_writes as G
     from lib.common import REPO
@@ -256,6 +305,10 @@ def run(ctx):
     for _ in range(nh):
         hist, problems, nontriv = run_history(ctx, rng, rng.randint(6, 14))
         ctx.case(key=tuple(hist), nontrivial=nontriv, kind=f"len{len(hist)}", sample={"history": hist[:8]})
+        allprob += [(p[0], p[1], None) for p in problems[:1]]
+    for _ in range(6 if ctx.quick else 60):
+        hist, problems = unit_history(ctx, rng, rng.randint(4, 9))
+        ctx.case(key=("units",) + tuple(hist), nontrivial=True, kind="quantity-box", sample={"history": hist})
         allprob += [(p[0], p[1], None) for p in problems[:1]]
     ctx.oblige("twin differential: every query answer equals the fresh twin's; queries change nothing", not allprob,
                allprob[0][0][:300] if allprob else "")
